@@ -4,17 +4,20 @@ from . import core, e4
 
 def run(tier):
     res = core.Result("C20", tier)
-    out = e4.run_suite("remote", tier)
-    res.add(states=out["cases"], transitions=out["cases"] * 4, traces=out["cases"], evaluations=out["cases"])
-    for i in range(out["nontrivial"]):
-        res.mark_nontrivial("case%d" % i)
-    for i in range(out["outcomes"]):
-        res.outcome("o%d" % i)
-    for v in out["violations"]:
-        res.violation(dict(v, kind="remote", what="Remote<%s>: %s (%s)" % (v.get("type"), v.get("what"), {k: x for k, x in v.items() if k not in ("what", "type", "schemas")})))
-    res.sample(out["sample"])
-    res.parts = {"types": out["types"], "addresses": out["addresses"], "distinct_schemas": out["distinct_schemas"]}
-    res.cov["rule"] = ("every address of {empty, 1 char, bech32, quotes/backslash/non-ASCII, control characters, 4 kB} x every type parameter of "
+    out = e4.run_suite_into(res, "remote", tier)
+    if out is not None:
+        res.add(states=out["cases"], transitions=out["cases"] * 4, traces=out["cases"], evaluations=out["cases"])
+        for i in range(out["nontrivial"]):
+            res.mark_nontrivial("case%d" % i)
+        for i in range(out["outcomes"]):
+            res.outcome("o%d" % i)
+        for v in out["violations"]:
+            res.violation(dict(v, kind="remote", what="Remote<%s>: %s (%s)" % (v.get("type"), v.get("what"), {k: x for k, x in v.items() if k not in ("what", "type", "schemas")})))
+        res.sample(out["sample"])
+        res.parts = {"types": out["types"], "addresses": out["addresses"], "distinct_schemas": out["distinct_schemas"]}
+    else:
+        out = e4.stub()
+    res.cov["rule"] = ("every address of {empty, 1 char, bech32, quotes/backslash/non-ASCII, control characters, upper / mixed case incl. non-ASCII, surrounding blanks, 4 kB} x every type parameter of "
                        "{concrete contract, generic contract at two instantiations, dyn Interface with two error types, dyn Interface with associated "
                        "types at two assignments, (), str, [u8]} x {owned, borrowed}: encoding == {\"addr\":<json string>} byte for byte, decodes back to "
                        "the same address, loads from storage under another parameter, schema identical for all parameters; non-trivial = non-empty address")
